@@ -1670,6 +1670,12 @@ func checkMainCFG(p *core.Program, r *core.Report) {
 		}
 	}
 	r.Count("functions reachable from main inspected for stdout writes", len(fns))
+	// (4) the rules above see a write to standard output only in its direct spellings. That is all
+	// there is only if the handle is never used in another way: every load of os.Stdout in the module
+	// is the destination of one of those calls — not stored, wrapped (bufio, log.New), handed to
+	// log.SetOutput or kept in a variable of interface type — and nobody assigns os.Stdout or opens
+	// descriptor 1 under another name.
+	checkStdoutHandle(p, r)
 	// printUsage is always followed by exit
 	if pu := cli.usage; pu != nil {
 		for _, site := range p.Callers(pu) {
@@ -1833,4 +1839,96 @@ func unhonourableGuard(c ssa.CallInstruction) bool {
 		}
 	}
 	return false
+}
+
+// checkStdoutHandle: every use of the os.Stdout handle in the module is the destination operand of a
+// call stdoutCall recognises (R17.5, clause 4).
+func checkStdoutHandle(p *core.Program, r *core.Report) {
+	isStdoutGlobal := func(v ssa.Value) bool {
+		g, ok := v.(*ssa.Global)
+		return ok && g.Pkg != nil && g.Pkg.Pkg.Path() == "os" && g.Name() == "Stdout"
+	}
+	var destOK func(v ssa.Value, depth int) (bool, ssa.Instruction)
+	destOK = func(v ssa.Value, depth int) (bool, ssa.Instruction) {
+		refs := v.Referrers()
+		if refs == nil {
+			return true, nil
+		}
+		for _, ref := range *refs {
+			switch x := ref.(type) {
+			case *ssa.DebugRef:
+				continue
+			case *ssa.MakeInterface, *ssa.ChangeInterface, *ssa.ChangeType:
+				if depth > 3 {
+					return false, ref
+				}
+				if ok, bad := destOK(x.(ssa.Value), depth+1); !ok {
+					return false, bad
+				}
+				continue
+			case ssa.CallInstruction:
+				if stdoutCall(x) && len(x.Common().Args) > 0 && x.Common().Args[0] == v {
+					// destination only: the same handle as a later operand would be printed, not written to
+					n := 0
+					for _, a := range x.Common().Args {
+						if a == v {
+							n++
+						}
+					}
+					if n == 1 {
+						continue
+					}
+				}
+				return false, ref
+			default:
+				return false, ref
+			}
+		}
+		return true, nil
+	}
+	nLoads, nBad := 0, 0
+	for _, fn := range p.ModuleFuncs() {
+		core.Instrs(fn, func(in ssa.Instruction) {
+			switch x := in.(type) {
+			case *ssa.UnOp:
+				if x.Op == token.MUL && isStdoutGlobal(x.X) {
+					nLoads++
+					if ok, bad := destOK(x, 0); !ok {
+						nBad++
+						r.Fail("R17.5", core.FuncName(fn), "the standard-output handle is used other than as the destination of a recognised write", p.InstrPos(bad),
+							"os.Stdout stored, wrapped or handed on (log.SetOutput, log.New, bufio.NewWriter, a variable): what is written through it is not counted by the one-line rule")
+					}
+				}
+				return
+			case *ssa.Store:
+				if isStdoutGlobal(x.Addr) {
+					nBad++
+					r.Fail("R17.5", core.FuncName(fn), "os.Stdout is reassigned", p.InstrPos(x), "writes the rules attribute to standard output go elsewhere (and the reverse)")
+				}
+				return
+			}
+			if c, ok := in.(ssa.CallInstruction); ok {
+				for _, op := range in.Operands(nil) {
+					if op != nil && *op != nil && isStdoutGlobal(*op) {
+						nBad++
+						r.Fail("R17.5", core.FuncName(fn), "address of os.Stdout is passed on", p.InstrPos(in), "")
+					}
+				}
+				switch core.CallName(c) {
+				case "os.NewFile", "syscall.Write", "syscall.Syscall", "syscall.RawSyscall", "os.OpenFile", "syscall.Dup2", "syscall.Dup3":
+					// os.OpenFile("/dev/stdout") and descriptor arithmetic: a second name for descriptor 1
+					if core.CallName(c) == "os.OpenFile" {
+						if s, ok := core.ConstString(c.Common().Args[0]); !ok || !(strings.HasPrefix(s, "/dev/") || strings.HasPrefix(s, "/proc/")) {
+							break
+						}
+					}
+					nBad++
+					r.Fail("R17.5", core.FuncName(fn), "a file descriptor is opened or written by number ("+core.CallName(c)+")", p.InstrPos(in), "descriptor 1 under another name escapes the one-line rule")
+				}
+			}
+		})
+	}
+	if nBad == 0 {
+		r.Pass("R17.5", "-", fmt.Sprintf("every use of os.Stdout in the module (%d loads) is the destination of a recognised write; os.Stdout is never reassigned; no descriptor is opened by number", nLoads), "", "")
+	}
 }
